@@ -25,6 +25,7 @@ EXPLANATION = (
     "is hard (carries the top weight w_max), and w_max exceeds the sum of all soft weights. X5 the semiring mode evaluates the (max, x) semiring on a compiled circuit: "
     "get_evaluatable(semiring=...) returns the compiling class only when semiring.is_dsp() is True, otherwise the plain NNF, on which a product over children that share a "
     "choice counts it once per occurrence."
+    " Added after seed round 6: X3 models the solver's answer as a typestate (signed model vs true variables) and reads else-branches as the negated literal; X4 folds the guard of every soft clause over (is_one, is_zero): emitted for every weight but the semiring one."
 )
 TECHNIQUE = "static analysis: decision tables of the semiring operations over orderings, AST patterns for literal/weight sign pairing, wiring rules"
 LEVEL_TEXT = EXPLANATION
